@@ -32,7 +32,7 @@ def run(tier):
             m = Model(h, r, abstract_fitness=True, first_seen=False)
             run.encoded = sorted(set(run.encoded) | set(m.interp.encoded))
             # reachability: the yield is reachable, and a non-emitting path with a violated constraint exists
-            r1, _ = m.check([m.emitted()], timeout_s=300)
+            r1, _ = m.check([m.emitted(), m.all_ok()], timeout_s=600)  # a witness with every constraint satisfied: seconds, where the bare query takes minutes for three constraints
             if r1 != "sat":
                 run.errors.append(f"shape {(h, r)}: vacuous model, yield unreachable ({r1})")
             res, mod = m.check([m.emitted(), z3.Not(m.all_ok())], timeout_s=900 if q else 2400)
